@@ -17,8 +17,27 @@
 (*                      ranges of range.go), driven by doBinarySearch or   *)
 (*                      doExclusionSearch                                  *)
 (* Dev = {} is the sound design and satisfies NeverSkipsMatch.  Members of *)
-(* Dev switch one rule to a wrong variant: a mutation seed, or the         *)
-(* as-implemented behaviour of a known openGemini defect (see below).      *)
+(* Dev switch one rule to a wrong variant.                                 *)
+(*  mutation seeds (self-test: each one makes TLC find a counterexample):  *)
+(*   le_as_lt                  `<=` builds the range of `<`                *)
+(*   or_as_and                 Mark.Or computed as Mark.And                *)
+(*   last_fragment_off_by_one  the index entry closing the last fragment   *)
+(*                             is the last row but one                     *)
+(*   null_as_minus_infinity    a null index cell becomes -infinity         *)
+(*  variants that lose precision only (TLC finds no counterexample; they   *)
+(*  show what the invariant does NOT depend on):                           *)
+(*   lt_as_le, and_as_or (canBeTrue grows), binary_search_always (given    *)
+(*   MayCoversMatch binary search returns a contiguous cover of all        *)
+(*   matching fragments whatever the condition)                            *)
+(*  as-implemented behaviour of open findings (known_findings.json):       *)
+(*   right_bound_overwrites    F-C20-1 checkRangeRightBound returns the    *)
+(*                             mask of the last hyper-rectangle only       *)
+(*   unknown_op_drops_element  F-C20-3 no RPN element for LIKE / MATCH     *)
+(*   in_is_error               F-C20-3 NewKeyCondition fails on IN         *)
+(*   matchphrase_as_equality   F-C20-4 MATCHPHRASE becomes the range [v,v] *)
+(*  The operators take the deviation set as their first parameter `dv`, so *)
+(*  that one run yields the design's selection (dv = Dev) and the          *)
+(*  prediction of the as-implemented model (dv = Dev \cup AsImplemented).  *)
 (***************************************************************************)
 EXTENDS Integers, Sequences, FiniteSets, TLC, SequencesExt, FiniteSetsExt
 
@@ -39,7 +58,7 @@ VARIABLES phase,  \* "init" | "built" | "cond" | "done"
           ct,     \* per key column "ia" (integer column whose values 0,1,2 are consecutive integers) or "o" (any other)
           cond,   \* the condition tree of the query
           tb,     \* time bounds [c |-> time key column or 0, lo, hi]
-          out,    \* result of Scan: [match, sel, impl, implerr]
+          out,    \* result of Scan: [match, design, impl, implo, implmp], each but match = [fails, may, sel]
           hist
 
 vars == <<phase, k, rows, g, ct, cond, tb, out, hist>>
@@ -75,11 +94,13 @@ AllRecs(kk) == UNION {SortedRecs(kk, n) : n \in 1..MaxRows}
 (* Fragments and the index record: GenFixRowsPerSegment + generateColumn.    *)
 NFrag(n, gg) == (n + gg - 1) \div gg
 \* index row j (0-based, 0..nf): first row of fragment j; row nf = the last row
-IdxRow(rs, gg, j) == IF j < NFrag(Len(rs), gg) THEN rs[j * gg + 1] ELSE rs[Len(rs)]
 IdxRowM(dv, rs, gg, j) ==   \* mutation seed: the entry closing the last fragment is taken one row early
   IF j < NFrag(Len(rs), gg) THEN rs[j * gg + 1]
   ELSE IF "last_fragment_off_by_one" \in dv /\ Len(rs) > 1 THEN rs[Len(rs) - 1] ELSE rs[Len(rs)]
-Index(dv, rs, gg) == TLCEval([j \in 0..NFrag(Len(rs), gg) |-> IdxRowM(dv, rs, gg, j)])
+\* the key the reader compares with: a null cell is +infinity (createFieldRefFunc: SetPositiveInfinity)
+IdxKey(dv, row) == IF "null_as_minus_infinity" \in dv
+                   THEN TLCEval([i \in 1..Len(row) |-> IF row[i] = Null THEN NegInf ELSE row[i]]) ELSE row
+Index(dv, rs, gg) == TLCEval([j \in 0..NFrag(Len(rs), gg) |-> IdxKey(dv, IdxRowM(dv, rs, gg, j))])
 FragOfRow(i, gg) == (i - 1) \div gg        \* 0-based fragment of the 1-based row i
 
 -----------------------------------------------------------------------------
@@ -110,6 +131,10 @@ Trees(atoms, d) ==
        IN atoms \cup UNION {UNION {{[t |-> o, l |-> sq[i], r |-> sq[j]] : j \in i..n} : i \in 1..n} : o \in {"and", "or"}}
 
 IsAtom(c) == c.t \notin {"and", "or"}
+
+RECURSIVE HasMatchPhrase(_)
+HasMatchPhrase(c) == IF c.t \in {"and", "or"} THEN HasMatchPhrase(c.l) \/ HasMatchPhrase(c.r)
+                     ELSE c.t = "strop" /\ c.op = "matchphrase"
 
 \* the key columns a string operator is applied to (these must be string columns)
 RECURSIVE StrCols(_)
@@ -163,7 +188,7 @@ RgContains(a, b)   == LeftLEQ(a, b.l) /\ RightGEQ(a, b.r)
 
 M(t, f) == [t |-> t, f |-> f]          \* (canBeTrue, canBeFalse)
 MAnd(dv, a, b) == IF "and_as_or" \in dv THEN M(a.t \/ b.t, a.f /\ b.f) ELSE M(a.t /\ b.t, a.f \/ b.f)
-MOr(a, b)  == M(a.t \/ b.t, a.f /\ b.f)
+MOr(dv, a, b) == IF "or_as_and" \in dv THEN M(a.t /\ b.t, a.f \/ b.f) ELSE M(a.t \/ b.t, a.f /\ b.f)
 MNot(a)    == M(a.f, a.t)
 Complete(a) == a.t /\ a.f
 ConsiderOnlyBeTrue == M(FALSE, TRUE)
@@ -227,7 +252,7 @@ RunRPN(dv, rpn, i, st, rgs) ==
   IF i > Len(rpn) THEN st[1]
   ELSE LET e == rpn[i] n == Len(st) IN
        IF e.e = "AND" THEN RunRPN(dv, rpn, i + 1, Append(SubSeq(st, 1, n - 2), MAnd(dv, st[n - 1], st[n])), rgs)
-       ELSE IF e.e = "OR" THEN RunRPN(dv, rpn, i + 1, Append(SubSeq(st, 1, n - 2), MOr(st[n - 1], st[n])), rgs)
+       ELSE IF e.e = "OR" THEN RunRPN(dv, rpn, i + 1, Append(SubSeq(st, 1, n - 2), MOr(dv, st[n - 1], st[n])), rgs)
        ELSE RunRPN(dv, rpn, i + 1, Append(st, ElemMask(e, rgs)), rgs)
 
 CheckInRange(dv, rpn, rgs) == RunRPN(dv, rpn, 1, <<>>, rgs)
@@ -258,11 +283,11 @@ AnyRange(dv, rpn, ks, L, R, lb, rb, rgs0, p0) ==
         LET mid  == IF lb /\ rb THEN Rg(L[c], R[c], FALSE, FALSE)
                     ELSE IF lb THEN LeftB(L[c], FALSE) ELSE RightB(R[c], FALSE)
             rgsM == TLCEval([i \in 1..ks |-> IF i = c THEN mid ELSE IF i > c THEN Whole ELSE rgs1[i]])
-            m0   == MOr(ConsiderOnlyBeTrue, CheckInRange(dv, rpn, rgsM))
+            m0   == MOr(dv, ConsiderOnlyBeTrue, CheckInRange(dv, rpn, rgsM))
         IN
         IF Complete(m0) THEN m0
         ELSE
-          LET mL == IF lb THEN MOr(m0, AnyRange(dv, rpn, ks, L, R, TRUE, FALSE, [rgsM EXCEPT ![c] = Point(L[c])], c))
+          LET mL == IF lb THEN MOr(dv, m0, AnyRange(dv, rpn, ks, L, R, TRUE, FALSE, [rgsM EXCEPT ![c] = Point(L[c])], c))
                     ELSE m0
           IN
           IF lb /\ Complete(mL) THEN mL
@@ -270,7 +295,7 @@ AnyRange(dv, rpn, ks, L, R, lb, rb, rgs0, p0) ==
           ELSE LET mR == AnyRange(dv, rpn, ks, L, R, FALSE, TRUE, [rgsM EXCEPT ![c] = Point(R[c])], c)
                IN IF "right_bound_overwrites" \in dv
                     THEN mR                \* as implemented: checkRangeRightBound returns `mark`, not `res`
-                    ELSE MOr(mL, mR)
+                    ELSE MOr(dv, mL, mR)
 
 \* MayBeInRange over the index entries s..e (0-based): may a row of the fragments s..e-1 satisfy the condition
 MayBe(dv, rpn, ks, idx, s, e) ==
@@ -364,13 +389,16 @@ ScanOut(c, rs, gg, ty) ==
     design |-> SelFor(Dev, ty, c, rs, gg),                       \* the design (plus the mutation seeds in Dev)
     impl   |-> impl,                                             \* the as-implemented model
     \* the as-implemented model when no column is an integer column (the harness' predictor for F-C20-2)
-    implo  |-> IF WithImpl /\ ty # AllO(Len(ty)) THEN SelFor(Dev \cup AsImplemented, AllO(Len(ty)), c, rs, gg) ELSE impl ]
+    implo  |-> IF WithImpl /\ ty # AllO(Len(ty)) THEN SelFor(Dev \cup AsImplemented, AllO(Len(ty)), c, rs, gg) ELSE impl,
+    \* the as-implemented model without right_bound_overwrites (tells F-C20-4 from F-C20-1 when both could apply)
+    implmp |-> IF WithImpl /\ HasMatchPhrase(c)
+                 THEN SelFor(Dev \cup (AsImplemented \ {"right_bound_overwrites"}), ty, c, rs, gg) ELSE impl ]
 
 -----------------------------------------------------------------------------
 Log(a, args, exp) == hist' = Append(hist, [a |-> a, args |-> args, exp |-> exp])
 
 NoCond == [t |-> "none"]
-NoOut  == [match |-> {}, design |-> NoSel, impl |-> NoSel, implo |-> NoSel]
+NoOut  == [match |-> {}, design |-> NoSel, impl |-> NoSel, implo |-> NoSel, implmp |-> NoSel]
 
 Init == /\ phase = "init" /\ k = 0 /\ rows = <<>> /\ g = 0 /\ ct = <<>> /\ cond = NoCond /\ tb = NoTB /\ out = NoOut
         /\ hist = <<>>
@@ -407,7 +435,8 @@ Scan ==
   /\ Log("Scan", <<>>, [match |-> SetSeq(out'.match), implerr |-> out'.impl.fails,
                         sel  |-> [s \in DOMAIN out'.design.sel |-> SetSeq(out'.design.sel[s])],
                         impl |-> [s \in DOMAIN out'.impl.sel |-> SetSeq(out'.impl.sel[s])],
-                        implo |-> [s \in DOMAIN out'.implo.sel |-> SetSeq(out'.implo.sel[s])]])
+                        implo |-> [s \in DOMAIN out'.implo.sel |-> SetSeq(out'.implo.sel[s])],
+                        implmp |-> [s \in DOMAIN out'.implmp.sel |-> SetSeq(out'.implmp.sel[s])]])
 
 Next ==
   /\ Len(hist) < Depth
